@@ -652,6 +652,12 @@ fn run(a: &Args) {
                             *c.yields.borrow_mut() = 0;
                             install_hook(&c.world, &c.yields, chunks, disp.clone());
                             let before = c.driver.state(c.world.borrow().nidx);
+                            let faulted_before = {
+                                let mut w = c.world.borrow_mut();
+                                let drained = w.faulted_rx.drain();
+                                w.faulted_log.extend(drained);
+                                w.faulted_log.len()
+                            };
                             let r = catch(std::panic::AssertUnwindSafe(|| c.driver.step()));
                             let y = *c.yields.borrow();
                             match r {
@@ -700,14 +706,21 @@ fn run(a: &Args) {
                                             }
                                         }
                                     }
-                                    if after.handles.is_empty() {
+                                    // connections are legitimately dropped when no handle is left: be conservative
+                                    // (all handles present at the start of this iteration were removed during it)
+                                    let drained = w.faulted_rx.drain();
+                                    w.faulted_log.extend(drained);
+                                    let faulted_now = w.faulted_log.len();
+                                    if after.handles.is_empty() || before.handles.is_empty()
+                                        || faulted_now - faulted_before >= before.handles.len()
+                                    {
                                         w.ever_no_handles = true;
                                     }
                                     // C03 / C01 / C08 at quiescent states: two consecutive chunk-free iterations
                                     if quiet && c.prev_op_was_quiet_poll && !after.paused && !report.exited && !c.stop_cmd
                                         && after.socket_deadlines.iter().all(|d| d.is_none())
                                     {
-                                        let tags: &[&str] = if w.any_die { &["C08"] } else { &["C03", "C01"] };
+                                        let tags: &[&str] = if w.any_die { &["C08", "C01"] } else { &["C03", "C01"] };
                                         if w.waker.queued() > 0 {
                                             let msg = format!("{} notification(s) are still in the waker queue after two full iterations: wake-ups are not being processed", w.waker.queued());
                                             for t in tags { w.t3.push((t.to_string(), msg.clone())); }
@@ -878,7 +891,7 @@ fn gen_case(w: &mut dyn Write, rng: &mut Rng, name: &str, prop: &str, long: bool
     let lst = *rng.pick(&["tcp", "tcp", "tcp,tcp", "tcp,uds", "uds"]);
     let listeners = lst.split(',').count();
     writeln!(w, "case {name} workers={workers} limit={limit} listeners={lst}").unwrap();
-    let faults = prop == "C08";
+    let faults = prop == "C08" || (prop == "C01" && rng.chance(1, 3));
     let cmds = (matches!(prop, "C05" | "C01" | "C08") && rng.chance(2, 3)) || (prop == "C03" && rng.chance(1, 3));
     let inject = prop == "C05";
     let mut g = Gen { rng, workers, listeners, wids: workers, faults, cmds, inject };
